@@ -10,6 +10,12 @@ CHECKS = {
  "C02": dict(cat="exploration", tech="reference-model monitor: expm(generator(Log X)) vs reference matrix of X, principal-branch / hemisphere / inverse metamorphic monitors",
    text="Every Log result of ladder workloads built from (axis, angle, t, s) (angles dense near 0 and pi, both hemispheres, the three index sets of the quaternion log, scales e^+-8) is checked through an independent matrix exponential, plus |phi|<=pi, Log(q)=Log(-q), Log(Inv X)=-Log X and Log(Exp x)=x away from pi.",
    note="Trusted: longdouble expm oracle (mpmath-validated per run); C01 block tolerances; comparisons near pi only through the matrix exponential.", ref="DESIGN.md 3 C02"),
+ "C03": dict(cat="exploration", tech="reference-model monitor in the longdouble matrix domain + history monitor (validity and shadow matrix after every operation of 10^4-step histories)",
+   text="Products, inverses, identities, matrix()/accessors, Act on 3- and 4-vectors (w=0, w<0), associativity and action composition are compared with the reference matrix representation built from raw components (blockwise condition-aware tolerances, scales e^+-8, translations 1e+-6, both dtypes, broadcasting); long mixed histories of @, Inv, add_, Retr, + on one element are checked at every quiescent point for validity (|q|-1 <= 4u(n+1), s>0) and against a longdouble shadow matrix.",
+   note="Trusted: lie_ref longdouble matrices; accuracy of Exp of an increment is budgeted from the measured distance to the reference (C01 decides it).", ref="DESIGN.md 3 C03"),
+ "C11": dict(cat="exploration", tech="reference-model monitor: conversions vs longdouble reference matrices; constructed inputs for every branch region; accept/reject oracle for check=True",
+   text="mat2SO3/SE3/Sim3/RxSO3 and from_matrix on reference-built matrices (3x3/3x4/4x4, all four extraction branches incl. exactly pi about the axes and pi+-1e-12..1e-3, scales 1e-3..1e3, batch rank up to 3, both dtypes) must reproduce matrix, unit quaternion and scale; euler2SO3 = RzRyRx and the Euler round trip outside the gimbal band with principal ranges; check=True must raise for defects >= 10x tolerance and never for <= 0.1x.",
+   note="Trusted: lie_ref; expected scale = longdouble cube root of the determinant of the matrix actually passed; gimbal band not judged.", ref="DESIGN.md 3 C11"),
  "C04": dict(cat="exploration", tech="program-level monitor: random typed LieTensor expression trees, autograd vs Richardson finite differences in left-perturbation coordinates; NaN sanitizer (anomaly mode + isfinite), leaf write check",
    text="Reverse-mode gradients of every operator alone (identity / tiny / thin-band / generic / large rotation) and of random well-typed programs to depth 6 (shared leaves, broadcasting, random cotangents, all four groups) are compared with a finite-difference oracle in tangent coordinates; last slot zero, finiteness, float32 agreement, and the Jacobian front-ends (functional.jacobian, modjac, func.jacrev, modjacrev/fwd) contracted against the same oracle. All 32 hand-written backward classes must be observed.",
    note="Trusted: FD oracle through pypose's forward ops (decided by C01/C02/C03/C05); tolerance 1e-6 relative + FD spread + documented sim3 truncation bound; Jinvp only away from zero rotation; CPU.", ref="DESIGN.md 3 C04"),
